@@ -95,7 +95,7 @@ func TestC04(t *testing.T) {
 		repeatParallel = 5
 	}
 	r := &result{Property: "C04", Name: "joins-equal-the-textbook-multiset",
-		Bound: fmt.Sprintf("all pairs of tables of 0..%d rows, two columns each, over the number domain %v (every pair) and the string domain %v (every pair of tables with <= 1 row; the values are chosen so that two different key pairs print alike when simply run together) and a domain of mixed Go numeric types %v (tables with <= 1 row); %d ON conditions (=, !=, <, >=, <=, AND, OR, either orientation, a column used twice, names that sort differently on the two sides); %d join kinds x strategies (PARALLEL ones run %d time(s)); result compared as a multiset with a nested-loop reference; aliases x/y and o/oi (one a prefix of the other) alternate", n, doms[0], doms[1], doms[2], len(conds), len(kinds), repeatParallel)}
+		Bound: fmt.Sprintf("all pairs of tables of 0..%d rows, two columns each, over the number domain %v (every pair) and the string domain %v (every pair of tables with <= 1 row; the values are chosen so that two different key pairs print alike when simply run together) and a domain of mixed Go numeric types %v (tables with <= 1 row); %d ON conditions (=, !=, <, >=, <=, AND, OR, either orientation, a column used twice, names that sort differently on the two sides); %d join kinds x strategies (PARALLEL ones run %d time(s)); result compared as a multiset with a nested-loop reference; aliases x/y, o/oi (one a prefix of the other) and a/aa (which read the same in either order when run together) alternate", n, doms[0], doms[1], doms[2], len(conds), len(kinds), repeatParallel)}
 	for di, dom := range doms {
 		ls := c04Tables([2]string{"a", "z"}, dom, n)
 		rs := c04Tables([2]string{"m", "b"}, dom, n)
@@ -144,12 +144,15 @@ func TestC04(t *testing.T) {
 						sort.Strings(want)
 						// aliases: x / y, and a pair where one alias is a prefix of the other (the row keys follow the aliases)
 						la, ra := "x", "y"
-						if (len(l)+len(rt))%2 == 1 {
+						switch (len(l) + 2*len(rt)) % 3 {
+						case 1:
 							la, ra = "o", "oi"
+						case 2:
+							la, ra = "a", "aa" // la+ra == ra+la
 						}
 						if la != "x" {
 							for i := range want {
-								want[i] = strings.ReplaceAll(strings.ReplaceAll(want[i], `"x":`, `"o":`), `"y":`, `"oi":`)
+								want[i] = strings.ReplaceAll(strings.ReplaceAll(want[i], `"x":`, `"`+la+`":`), `"y":`, `"`+ra+`":`)
 							}
 							sort.Strings(want)
 						}
